@@ -97,7 +97,8 @@ Layouts ==
       notag  |-> [recv |-> "value", fields |-> << Fld("A", "int", FALSE), Fld("B", "string", FALSE) >>],   \* catalog.NoTag
       sub    |-> [recv |-> "value", fields |-> << Fld("a", "int", FALSE), Fld("b", "string", FALSE) >>],   \* catalog.Sub
       sub_p  |-> [recv |-> "pointer", fields |-> << Fld("a", "int", FALSE), Fld("b", "string", FALSE) >>], \* *catalog.Sub
-      subptrs |-> [recv |-> "value", fields |-> << Fld("a", "int", TRUE), Fld("b", "string", TRUE) >>] ]   \* catalog.SubPtrs
+      subptrs |-> [recv |-> "value", fields |-> << Fld("a", "int", TRUE), Fld("b", "string", TRUE) >>],   \* catalog.SubPtrs
+      outer  |-> [recv |-> "value", fields |-> << Fld("a", "int", FALSE), Fld("w", "wide", FALSE) >>] ]   \* catalog.Outer (a Wide by value)
 LayoutIds == DOMAIN Layouts
 FieldOf(layout, name) ==
     LET fs == Layouts[layout].fields IN fs[CHOOSE i \in DOMAIN fs : fs[i].name = name]
@@ -129,6 +130,7 @@ FieldFits(fk, t) ==
       [] fk = "any" -> t.kind \in {"any", "oneof", "ref"} \/ (t.kind = "object" /\ t.layout = "map")
       [] fk = "sub" -> t.kind = "ref" \/ (t.kind = "object" /\ t.layout = "sub")
       [] fk = "subp" -> t.kind = "ref" \/ (t.kind = "object" /\ t.layout \in {"sub", "sub_p"})
+      [] fk = "wide" -> t.kind = "object" /\ t.layout = "wide"
 
 \* ids referenced below a schema
 RECURSIVE RefsIn(_)
@@ -158,7 +160,7 @@ WFObject(s) ==
           \* caveat (ii) of DESIGN 3: a by-value field cannot represent absence, so a property that can
           \* be absent after defaulting is a pointer / nil-able field or treats its empty value as absence
           /\ (s.layout # "map" /\ ~Nullable(FieldOf(s.layout, p.name)))
-                => (p.required \/ p.default.some \/ p.empty_is_default \/ FieldOf(s.layout, p.name).fk = "sub")
+                => (p.required \/ p.default.some \/ p.empty_is_default \/ FieldOf(s.layout, p.name).fk \in {"sub", "wide"})
     /\ s.layout \in {"map"} \cup LayoutIds
 WF(s) ==
     CASE s.kind = "int" ->
